@@ -6,8 +6,11 @@ import SlipVerif.Driver.Util
                             slot = <name>/<initarg,initarg,…|->/<initform|->          reply  d
    P:<c>                    class precedence list                                     reply  c.a.b | !notready
    M:<c>:<k=v,k=v,…|->      make-instance (becomes the current instance)              reply  [?]x=v,y=u,… | - | !notready | !badarg
-   W:<x>:<v>                write slot x of the current instance                      reply  slots
+   W:<x>:<v>:<how>:<k>      write slot x of the current instance; how = s (setf slot-value) |
+                            w (writer) | a (setf accessor) defined by class k         reply  slots | !noslot | !noapplicable
+   R:<x>:<how>:<k>          read slot x through the reader / accessor of class k      reply  v | u | !noslot | !noapplicable
    U:<x>                    slot-makunbound                                           reply  slots
+   (a slot has a fourth field, the reader/writer/accessor flags, which the model ignores)
    T:<c>:<k>                typep of an instance of c                                 reply  t | nil | !notready
    A:<c>:<k,k,…|->          applicable methods (methods on the listed classes)        reply  k.k | - | !notready
    slots are reported sorted by slot name, `u` = unbound; a leading `?` marks a make-instance whose
@@ -23,7 +26,7 @@ def natList? (s : String) (sep : String := ",") : Option (List Nat) :=
 
 def parseSlot? (s : String) : Option SlotDef :=
   match s.splitOn "/" with
-  | [n, ia, f] => do
+  | [n, ia, f, _] => do
       let n ← n.toNat?
       let ia ← natList? ia
       let f ← if f = "-" then some none else f.toInt?.map some
@@ -56,7 +59,7 @@ def showNames (l : List Name) : String :=
 
 structure Run where
   st : State := []
-  cur : Option Inst := none
+  cur : Option (Name × Inst) := none
   out : List String := []   -- reversed
   bad : Option String := none
 
@@ -84,21 +87,38 @@ def step (r : Run) (tok : String) : Run :=
         let amb := match precOf r.st c with
           | some p => ambiguous (slotDefsOf r.st p) args
           | none => false
-        { r with cur := some i, out := ((if amb then "?" else "") ++ showInst i) :: r.out }
+        { r with cur := some (c, i), out := ((if amb then "?" else "") ++ showInst i) :: r.out }
       | .error .notReady => { r with cur := none, out := "!notready" :: r.out }
       | .error .badInitarg => { r with cur := none, out := "!badarg" :: r.out }
     | _, _ => fail "make"
-  | ["W", x, v] =>
-    match x.toNat?, v.toInt?, r.cur with
-    | some x, some v, some i =>
-      let i' := writeSlot i x v
-      { r with cur := some i', out := showInst i' :: r.out }
-    | _, _, _ => fail "write"
+  | ["W", x, v, how, k] =>
+    match x.toNat?, v.toInt?, k.toNat?, r.cur with
+    | some x, some v, some k, some (c, i) =>
+      if how = "s" || typep r.st c k = some true then
+        if (getSlot i x).isNone && how = "s" then { r with out := "!noslot" :: r.out } else
+        let i' := writeSlot i x v
+        { r with cur := some (c, i'), out := showInst i' :: r.out }
+      else { r with out := "!noapplicable" :: r.out }
+    | some _, some _, some _, none => { r with out := "!noinst" :: r.out }
+    | _, _, _, _ => fail "write"
+  | ["R", x, _, k] =>
+    match x.toNat?, k.toNat?, r.cur with
+    | some x, some k, some (c, i) =>
+      if typep r.st c k = some true then
+        match getSlot i x with
+        | some (some v) => { r with out := toString v :: r.out }
+        | some none => { r with out := "u" :: r.out }
+        | none => { r with out := "!noslot" :: r.out }
+      else { r with out := "!noapplicable" :: r.out }
+    | some _, some _, none => { r with out := "!noinst" :: r.out }
+    | _, _, _ => fail "read"
   | ["U", x] =>
     match x.toNat?, r.cur with
-    | some x, some i =>
+    | some x, some (c, i) =>
+      if (getSlot i x).isNone then { r with out := "!noslot" :: r.out } else
       let i' := unbindSlot i x
-      { r with cur := some i', out := showInst i' :: r.out }
+      { r with cur := some (c, i'), out := showInst i' :: r.out }
+    | some _, none => { r with out := "!noinst" :: r.out }
     | _, _ => fail "unbind"
   | ["T", c, k] =>
     match c.toNat?, k.toNat? with
